@@ -51,7 +51,8 @@ pub fn t_plural_inner(
     let match_arms = forms.iter().map(|(form, block)| quote!(#form => #block));
     let fallback = fallback.map(|(expr, span)| {
         let fb = quote_spanned! { span => _ };
-        quote!(#fb => #expr)
+        // the arm brings its own comma: without a `_` arm (every category listed) there is nothing to separate.
+        quote!(#fb => #expr,)
     });
 
     let ts = quote! {
@@ -59,7 +60,7 @@ pub fn t_plural_inner(
             #(
                 #match_arms,
             )*
-            #fallback,
+            #fallback
         }
     };
 
